@@ -71,6 +71,40 @@ func c08Object(c *mon.Ctx, x psatoken.IClaims, k keys.Pair, sig string, det map[
 	case valid && e.Claims != x:
 		bad("SetClaims/not-attached", "SetClaims succeeded but did not attach the claims")
 	}
+	// --- the gates must validate the claims AS THEY ARE NOW: attach a valid
+	// set, make the very same object invalid in place, then ask the gates again
+	if valid && c08Invalidate != nil {
+		inv := c08Invalidate
+		e3 := &psatoken.Evidence{}
+		if e3.SetClaims(x) == nil {
+			_, _ = psatoken.ValidateAndEncodeClaimsToCBOR(x)
+			how := inv(x)
+			if how != "" && x.Validate() != nil {
+				c.Count("invalidated-after-attach")
+				if k.Signer != nil {
+					calls := 0
+					tok, serr := e3.ValidateAndSign(faultSigner{alg: k.Alg, mode: "delegate", inner: k.Signer, calls: &calls})
+					if serr == nil || len(tok) != 0 || calls != 0 {
+						cls = "invalidated-after-attach"
+						bad("ValidateAndSign/let-invalid-through", fmt.Sprintf("claims were attached while valid, then made invalid in place (%s): ValidateAndSign returned err=%v, %d bytes, signer calls=%d", how, serr, len(tok), calls))
+					}
+				}
+				if b, err := psatoken.ValidateAndEncodeClaimsToCBOR(x); err == nil || len(b) != 0 {
+					cls = "invalidated-after-attach"
+					bad("ValidateAndEncodeClaimsToCBOR/let-invalid-through", "claims were valid, were encoded once, then made invalid in place ("+how+"): the validating encoder still accepts them")
+				}
+				if b, err := psatoken.ValidateAndEncodeClaimsToJSON(x); err == nil || len(b) != 0 {
+					cls = "invalidated-after-attach"
+					bad("ValidateAndEncodeClaimsToJSON/let-invalid-through", "claims were valid, then made invalid in place ("+how+"): the validating JSON encoder still accepts them")
+				}
+				if err := (&psatoken.Evidence{}).SetClaims(x); err == nil {
+					cls = "invalidated-after-attach"
+					bad("SetClaims/let-invalid-through", "claims were valid, then made invalid in place ("+how+"): SetClaims still accepts them")
+				}
+				return // x is no longer the case's object
+			}
+		}
+	}
 	// --- ValidateAndEncodeClaimsToCBOR
 	vb, verr2 := psatoken.ValidateAndEncodeClaimsToCBOR(x)
 	nb, nerr := psatoken.EncodeClaimsToCBOR(x)
@@ -239,8 +273,67 @@ func c08DecodeCOSE(c *mon.Ctx, tok []byte, pk any, sig string) (outcome string) 
 	return "decoded-valid"
 }
 
+// c08Invalidate, when set, makes c08Object run the attach-then-invalidate case.
+var c08Invalidate func(psatoken.IClaims) string
+
+// invalidateInPlace makes a (valid) claims object invalid the way a caller
+// can: through a setter that clears, or by overwriting an exported field /
+// editing a component it holds a pointer to.
+func invalidateInPlace(g *model.Gen, y psatoken.IClaims) string {
+	p1, p2 := obs.P1Of(y), obs.P2Of(y)
+	switch g.R.Intn(6) {
+	case 0:
+		if p2 != nil {
+			_ = y.SetSoftwareComponents([]psatoken.ISwComponent{})
+			return "SetSoftwareComponents(empty) on profile 2"
+		}
+		p1.Nonce = nil
+		return "Nonce = nil"
+	case 1:
+		if p1 != nil {
+			p1.ImplID = nil
+		} else {
+			p2.ImplID = nil
+		}
+		return "ImplID = nil"
+	case 2:
+		b := g.Bytes(31)
+		if p1 != nil {
+			p1.ImplID = &b
+		} else {
+			p2.ImplID = &b
+		}
+		return "ImplID = 31 bytes"
+	case 3:
+		v := uint16(0x7000)
+		if p1 != nil {
+			p1.SecurityLifeCycle = &v
+		} else {
+			p2.SecurityLifeCycle = &v
+		}
+		return "SecurityLifeCycle = 0x7000"
+	case 4:
+		if scs, err := y.GetSoftwareComponents(); err == nil && len(scs) > 0 {
+			if sc, ok := scs[g.R.Intn(len(scs))].(*psatoken.SwComponent); ok {
+				five := g.Bytes(5)
+				sc.SignerID = &five
+				return "retained component pointer: SignerID = 5 bytes"
+			}
+		}
+		return ""
+	default:
+		if p2 != nil {
+			p2.Nonce = nil
+			return "Nonce = nil"
+		}
+		s := ""
+		p1.VSI = &s
+		return "VSI = empty string"
+	}
+}
+
 func runC08(c *mon.Ctx) {
-	c.Rule("every claims-set class of C01 (valid, each single / double / triple rule violation, random products; both profiles; a registered P2-based extension with its own extra rule (negative timestamp) so that a gate that runs only the generic rules is visible) built by direct field assignment, pushed through the object-side gates SetClaims, ValidateAndEncodeClaimsToCBOR, ValidateAndEncodeClaimsToJSON, ValidateAndSign (7 algorithms, signer wrapped to count invocations); the wire tokens of C04 (valid / rule-breaking / type-breaking / open encodings), JSON documents of valid and rule-breaking sets, and COSE envelopes (tokens signed with the non-validating Sign, and C04 wire tokens wrapped + signed by the harness) pushed through DecodeAndValidateClaimsFromCBOR, DecodeAndValidateClaimsFromJSON, the deprecated DecodeJSONClaims, DecodeAndValidateEvidenceFromCOSE. Oracle: the library's own Validate() on the same object / on the non-validating sibling's result: Validate fails => the gate returns an error, no bytes, no object, attaches nothing (and never invokes the signer); Validate succeeds => the gate's result equals the non-validating sibling's (bytes, payload+protected header, claims observation, Verify). distinct_nontrivial = distinct (gate family, profile, violated-claim classes) signatures")
+	c.Rule("every claims-set class of C01 (valid, each single / double / triple rule violation, random products; both profiles; a registered P2-based extension with its own extra rule (negative timestamp) so that a gate that runs only the generic rules is visible) built by direct field assignment, pushed through the object-side gates (also: attached/encoded while valid, then made invalid IN PLACE through a clearing setter, an exported field or a retained component pointer, and pushed through the gates again) SetClaims, ValidateAndEncodeClaimsToCBOR, ValidateAndEncodeClaimsToJSON, ValidateAndSign (7 algorithms, signer wrapped to count invocations); extension-profile tokens (CBOR, JSON, COSE) that break only the extension's own rule; the wire tokens of C04 (valid / rule-breaking / type-breaking / open encodings), JSON documents of valid and rule-breaking sets, and COSE envelopes (tokens signed with the non-validating Sign, and C04 wire tokens wrapped + signed by the harness) pushed through DecodeAndValidateClaimsFromCBOR, DecodeAndValidateClaimsFromJSON, the deprecated DecodeJSONClaims, DecodeAndValidateEvidenceFromCOSE. Oracle: the library's own Validate() on the same object / on the non-validating sibling's result: Validate fails => the gate returns an error, no bytes, no object, attaches nothing (and never invokes the signer); Validate succeeds => the gate's result equals the non-validating sibling's (bytes, payload+protected header, claims observation, Verify). distinct_nontrivial = distinct (gate family, profile, violated-claim classes) signatures")
 	if err := extprof.Register(extprof.ExtP2Name); err != nil {
 		c.Violation("harness/register", err.Error(), nil)
 		return
@@ -308,6 +401,10 @@ func runC08(c *mon.Ctx) {
 			k = ks[(i/4)%7]
 		}
 		det := map[string]any{"case": abstractSample(a), "ext": ext}
+		c08Invalidate = nil
+		if i%5 == 0 {
+			c08Invalidate = func(y psatoken.IClaims) string { return invalidateInPlace(g, y) }
+		}
 		guard("object gates", det, func() { c08Object(c, x, k, sig, det) })
 		if ext == "ext-negative-timestamp" {
 			c.Count("extension-rule-only-invalid")
@@ -332,6 +429,34 @@ func runC08(c *mon.Ctx) {
 			if err == nil {
 				tok := sign1Bytes(prot, nil, wire, sg)
 				guard("cose decode gates", map[string]any{"token_hex": mon.Hex(tok)}, func() { c.Count("cose:" + c08DecodeCOSE(c, tok, k.Pub, "cose|"+sig)) })
+			}
+		}
+	}
+	// ---- extension-profile tokens that break ONLY the extension's own rule
+	for i := 0; i < c.N(8000, 200000); i++ {
+		a := g.Valid(2)
+		a.Canon, a.Profile = extprof.ExtP2Name, model.SP(extprof.ExtP2Name)
+		ts := int64(g.R.Intn(1 << 30))
+		cls := "ext-valid"
+		if i%2 == 0 {
+			ts = -1 - int64(g.R.Intn(1000))
+			cls = "ext-rule-only-invalid"
+		}
+		w := a.WireCBOR()
+		w.Items = append(w.Items, refcbor.I(-75100), refcbor.I(ts))
+		wire := refcbor.Encode(w)
+		sig := "cbor|ExtP2|" + cls
+		c.Sig(sig)
+		guard("cbor decode gates (extension)", map[string]any{"wire_hex": mon.Hex(wire)}, func() { c.Count("cbor-" + cls + ":" + c08DecodeCBOR(c, wire, sig)) })
+		ms := append(a.JSONMembers(), model.Member{Name: "timestamp", Value: fmt.Sprint(ts)})
+		doc := model.MembersJSON(ms)
+		guard("json decode gates (extension)", map[string]any{"json": string(doc)}, func() { c.Count("json-" + cls + ":" + c08DecodeJSON(c, doc, "json|ExtP2|"+cls)) })
+		if i%4 < 2 {
+			k := ks[(i/4)%7]
+			prot := refcbor.Encode(refcbor.MapOf(refcbor.I(1), refcbor.I(coseAlgID[k.Name])))
+			if sg, err := k.Signer.Sign(rand.Reader, refcose.SigStructure(prot, wire)); err == nil {
+				tok := sign1Bytes(prot, nil, wire, sg)
+				guard("cose decode gates (extension)", map[string]any{"token_hex": mon.Hex(tok)}, func() { c.Count("cose-" + cls + ":" + c08DecodeCOSE(c, tok, k.Pub, "cose|ExtP2|"+cls)) })
 			}
 		}
 	}
@@ -402,6 +527,11 @@ func runC08(c *mon.Ctx) {
 	c.Floor("objects:valid", 1000)
 	c.Floor("objects:invalid", 1000)
 	c.Floor("extension-rule-only-invalid", 50)
+	c.Floor("invalidated-after-attach", 500)
+	for _, fam := range []string{"cbor", "json", "cose"} {
+		c.Floor(fam+"-ext-rule-only-invalid:decoded-invalid", 100)
+		c.Floor(fam+"-ext-valid:decoded-valid", 100)
+	}
 	for _, fam := range []string{"cbor", "json", "cose"} {
 		c.Floor(fam+":decoded-valid", 200)
 		c.Floor(fam+":decoded-invalid", 200)
